@@ -311,6 +311,17 @@ def kernel_obligations(rep, timeout):
                                     meta={"case": "kernel:semi_infinite_vortex", "path": partials.path_label(p)}))
         oblig.discharge(obs, lw=lw, timeout=timeout)
         allobs += obs
+    # antisymmetry K(r2, r1) = -K(r1, r2): the stub canonicalises argument order with it
+    with symbolic_numpy():
+        pr = execute.explore(lambda: symify(em._compute_finite_vortex(r2, r1)))
+    for pa in pf:
+        for pb in pr:
+            if pa.label() != pb.label():
+                continue
+            obs = [oblig.Ob("kernel:finite_vortex|antisymmetry[%d] path %s" % (k, pa.label()), lhs=pb.result[0][0, k], rhs=-pa.result[0][0, k],
+                            assume=pa.conds + pb.conds, meta={"case": "kernel:finite_vortex", "path": partials.path_label(pa)}) for k in range(3)]
+            oblig.discharge(obs, timeout=timeout)
+            allobs += obs
     # numeric validation of the two value kernels' DAG against the real kernels
     rng = np.random.default_rng(5)
     a, b = rng.random((1, 3)) + 0.3, rng.random((1, 3)) - 1.2
